@@ -264,6 +264,10 @@ cdef class ZOrderNNPS(NNPS):
         cdef int c_x, c_y, c_z
 
         cdef int i, n
+        if curr_num_particles == 0:
+            # nothing to index for an empty array
+            return curr_cid
+
         for i in range(curr_num_particles):
             find_cell_id_raw(
                     x_ptr[i] - xmin[0],
@@ -385,41 +389,36 @@ cdef class ZOrderNNPS(NNPS):
         return pids.get_npy_array()
 
     cdef void _fill_nbr_boxes(self):
-        cdef int i, j, k
+        cdef int i, j, k, m
         cdef NNPSParticleArrayWrapper pa_wrapper
-        cdef int num_particles
+        cdef int num_particles, num_dst
 
         cdef int* current_nbr_boxes
+        cdef int* current_lengths
         cdef uint32_t* current_cids
         cdef uint32_t* current_pids
         cdef uint64_t* current_keys
         cdef int* current_key_to_idx
-        cdef int found_idx
+
+        cdef uint32_t* dst_cids
+        cdef uint32_t* dst_pids
+        cdef uint64_t* dst_keys
 
         cdef double* x_ptr
         cdef double* y_ptr
         cdef double* z_ptr
-        cdef double* h_ptr
+        cdef double* xmin = self.xmin.data
 
         cdef int c_x, c_y, c_z
         cdef int num_boxes
 
-        cdef int n = 0
         cdef uint32_t cid, pid
 
         cdef int found_indices[27]
 
-        cdef uint64_t key
-
         for i in range(self.narrays):
-            n = 0
             pa_wrapper = self.pa_wrappers[i]
             num_particles = pa_wrapper.get_number_of_particles()
-            x_ptr = pa_wrapper.x.data
-            y_ptr = pa_wrapper.y.data
-            z_ptr = pa_wrapper.z.data
-            h_ptr = pa_wrapper.h.data
-            xmin = self.xmin.data
 
             current_keys = self.keys[i]
             current_key_to_idx = self.key_to_idx[i]
@@ -435,33 +434,30 @@ cdef class ZOrderNNPS(NNPS):
             for j in range(self.max_cid):
                 current_lengths[j] = 1
 
-            pid = current_pids[0]
-            cid = current_cids[pid]
-
-            find_cell_id_raw(
-                x_ptr[pid] - xmin[0],
-                y_ptr[pid] - xmin[1],
-                z_ptr[pid] - xmin[2],
-                self.h_sub,
-                &c_x, &c_y, &c_z
-                )
-
-            num_boxes = self._neighbor_boxes(c_x, c_y, c_z, current_key_to_idx,
-                    num_particles, found_indices)
-
-            for k in range(num_boxes):
-                found_idx = found_indices[k]
-                current_nbr_boxes[self.mask_len*cid + n] = found_idx
-                n += 1
-
-            # nbrs of all cids in particle array i
+            # number of particles of array i in each of its cells
             for j in range(1, num_particles):
-                key = current_keys[j]
-                pid = current_pids[j]
-                cid = current_cids[pid]
-                n = 0
+                if current_keys[j] == current_keys[j-1]:
+                    current_lengths[current_cids[current_pids[j]]] += 1
 
-                if key != current_keys[j-1]:
+            # cells of array i that neighbour each cell occupied by *any*
+            # array: a destination particle may sit in a cell that holds no
+            # particle of the source array
+            for k in range(self.narrays):
+                pa_wrapper = self.pa_wrappers[k]
+                num_dst = pa_wrapper.get_number_of_particles()
+                x_ptr = pa_wrapper.x.data
+                y_ptr = pa_wrapper.y.data
+                z_ptr = pa_wrapper.z.data
+                dst_keys = self.keys[k]
+                dst_pids = self.pids[k]
+                dst_cids = self.cids[k]
+
+                for j in range(num_dst):
+                    if j > 0 and dst_keys[j] == dst_keys[j-1]:
+                        continue
+                    pid = dst_pids[j]
+                    cid = dst_cids[pid]
+
                     find_cell_id_raw(
                         x_ptr[pid] - xmin[0],
                         y_ptr[pid] - xmin[1],
@@ -470,15 +466,12 @@ cdef class ZOrderNNPS(NNPS):
                         &c_x, &c_y, &c_z
                         )
 
-                    num_boxes = self._neighbor_boxes(c_x, c_y, c_z, current_key_to_idx,
-                            num_particles, found_indices)
+                    num_boxes = self._neighbor_boxes(c_x, c_y, c_z,
+                            current_key_to_idx, num_particles, found_indices)
 
-                    for k in range(num_boxes):
-                        found_idx = found_indices[k]
-                        current_nbr_boxes[self.mask_len*cid + n] = found_idx
-                        n += 1
-                else:
-                    current_lengths[cid] += 1
+                    for m in range(num_boxes):
+                        current_nbr_boxes[self.mask_len*cid + m] = \
+                                found_indices[m]
 
     cdef inline int get_idx(self, uint64_t key, int* key_to_idx) noexcept nogil:
         return -1 if key >= self.max_key else key_to_idx[key]
@@ -630,21 +623,21 @@ cdef class ExtendedZOrderNNPS(ZOrderNNPS):
         return length
 
     cdef int _neighbor_boxes_func(self, int i, int j, int k,
-            int* current_key_to_idx, uint32_t* current_cids,
-            double* current_hmax, int num_particles,
+            int* current_key_to_idx, uint32_t* current_pids,
+            uint32_t* current_cids, double* current_hmax, int num_particles,
             int* found_indices, double h):
         if self.asymmetric:
             return self._neighbor_boxes_asym(i, j, k, current_key_to_idx,
-                    current_cids, current_hmax, num_particles,
+                    current_pids, current_cids, current_hmax, num_particles,
                     found_indices, h)
         else:
             return self._neighbor_boxes_sym(i, j, k, current_key_to_idx,
-                    current_cids, current_hmax, num_particles,
+                    current_pids, current_cids, current_hmax, num_particles,
                     found_indices, h)
 
     cdef int _neighbor_boxes_asym(self, int i, int j, int k,
-            int* current_key_to_idx, uint32_t* current_cids,
-            double* current_hmax, int num_particles,
+            int* current_key_to_idx, uint32_t* current_pids,
+            uint32_t* current_cids, double* current_hmax, int num_particles,
             int* found_indices, double h) noexcept nogil:
         cdef int length = 0
 
@@ -677,8 +670,8 @@ cdef class ExtendedZOrderNNPS(ZOrderNNPS):
 
     @cython.cdivision(True)
     cdef int _neighbor_boxes_sym(self, int i, int j, int k,
-            int* current_key_to_idx, uint32_t* current_cids,
-            double* current_hmax, int num_particles,
+            int* current_key_to_idx, uint32_t* current_pids,
+            uint32_t* current_cids, double* current_hmax, int num_particles,
             int* found_indices, double h) noexcept nogil:
         cdef int length = 0
 
@@ -706,7 +699,8 @@ cdef class ExtendedZOrderNNPS(ZOrderNNPS):
                         if found_idx == -1:
                             continue
 
-                        cid = current_cids[found_idx]
+                        # found_idx is a position in the sorted pid array
+                        cid = current_cids[current_pids[found_idx]]
 
                         h_local = self.radius_scale * fmax(current_hmax[cid], h)
                         H = <int> ceil(h_local / self.h_sub)
@@ -718,45 +712,49 @@ cdef class ExtendedZOrderNNPS(ZOrderNNPS):
         return length
 
     cdef void _fill_nbr_boxes(self):
-        cdef int i, j, k
+        cdef int i, j, k, m
         cdef NNPSParticleArrayWrapper pa_wrapper
-        cdef int num_particles
+        cdef int num_particles, num_dst
 
         cdef int* current_nbr_boxes
+        cdef int* current_lengths
         cdef uint32_t* current_cids
         cdef uint32_t* current_pids
         cdef uint64_t* current_keys
         cdef int* current_key_to_idx
         cdef double* current_hmax
-        cdef int found_idx
+
+        cdef uint32_t* dst_cids
+        cdef uint32_t* dst_pids
+        cdef uint64_t* dst_keys
 
         cdef double* x_ptr
         cdef double* y_ptr
         cdef double* z_ptr
         cdef double* h_ptr
+        cdef double* xmin = self.xmin.data
 
         cdef int c_x, c_y, c_z
         cdef int num_boxes
 
-        cdef int n = 0
         cdef uint32_t cid, pid
 
         cdef int* found_indices = <int*> malloc(self.mask_len * \
                 sizeof(int))
-        cdef uint64_t key
+
+        # largest h in each cell over all the arrays (the query radius)
+        cdef double* hmax_all = <double*> malloc((self.max_cid + 1) * \
+                sizeof(double))
+
+        for j in range(self.max_cid):
+            hmax_all[j] = 0
 
         for i in range(self.narrays):
-            n = 0
             pa_wrapper = self.pa_wrappers[i]
             num_particles = pa_wrapper.get_number_of_particles()
-            x_ptr = pa_wrapper.x.data
-            y_ptr = pa_wrapper.y.data
-            z_ptr = pa_wrapper.z.data
             h_ptr = pa_wrapper.h.data
-            xmin = self.xmin.data
 
             current_keys = self.keys[i]
-            current_key_to_idx = self.key_to_idx[i]
             current_cids = self.cids[i]
             current_pids = self.pids[i]
             current_nbr_boxes = self.nbr_boxes[i]
@@ -771,49 +769,44 @@ cdef class ExtendedZOrderNNPS(ZOrderNNPS):
                 current_lengths[j] = 1
                 current_hmax[j] = 0
 
-            pid = current_pids[0]
-            cid = current_cids[pid]
-
-            current_hmax[cid] = h_ptr[pid]
-
-            for j in range(1, num_particles):
-                key = current_keys[j]
+            # size and largest h of each cell of array i
+            for j in range(num_particles):
                 pid = current_pids[j]
                 cid = current_cids[pid]
+                current_hmax[cid] = fmax(current_hmax[cid], h_ptr[pid])
+                hmax_all[cid] = fmax(hmax_all[cid], h_ptr[pid])
+                if j > 0 and current_keys[j] == current_keys[j-1]:
+                    current_lengths[cid] += 1
 
-                if key != current_keys[j-1]:
-                    current_hmax[cid] = h_ptr[pid]
-                else:
-                    current_hmax[cid] = fmax(current_hmax[cid], h_ptr[pid])
+        for i in range(self.narrays):
+            pa_wrapper = self.pa_wrappers[i]
+            num_particles = pa_wrapper.get_number_of_particles()
 
-            pid = current_pids[0]
-            cid = current_cids[pid]
+            current_key_to_idx = self.key_to_idx[i]
+            current_cids = self.cids[i]
+            current_pids = self.pids[i]
+            current_nbr_boxes = self.nbr_boxes[i]
+            current_hmax = self.hmax[i]
 
-            find_cell_id_raw(
-                x_ptr[pid] - xmin[0],
-                y_ptr[pid] - xmin[1],
-                z_ptr[pid] - xmin[2],
-                self.h_sub,
-                &c_x, &c_y, &c_z
-                )
+            # cells of array i that neighbour each cell occupied by *any*
+            # array: a destination particle may sit in a cell that holds no
+            # particle of the source array
+            for k in range(self.narrays):
+                pa_wrapper = self.pa_wrappers[k]
+                num_dst = pa_wrapper.get_number_of_particles()
+                x_ptr = pa_wrapper.x.data
+                y_ptr = pa_wrapper.y.data
+                z_ptr = pa_wrapper.z.data
+                dst_keys = self.keys[k]
+                dst_pids = self.pids[k]
+                dst_cids = self.cids[k]
 
-            num_boxes = self._neighbor_boxes_func(c_x, c_y, c_z,
-                    current_key_to_idx, current_cids, current_hmax,
-                    num_particles, found_indices, current_hmax[cid])
+                for j in range(num_dst):
+                    if j > 0 and dst_keys[j] == dst_keys[j-1]:
+                        continue
+                    pid = dst_pids[j]
+                    cid = dst_cids[pid]
 
-            for k in range(num_boxes):
-                found_idx = found_indices[k]
-                current_nbr_boxes[self.mask_len*cid + n] = found_idx
-                n += 1
-
-            # nbrs of all cids in particle array i
-            for j in range(1, num_particles):
-                key = current_keys[j]
-                pid = current_pids[j]
-                cid = current_cids[pid]
-                n = 0
-
-                if key != current_keys[j-1]:
                     find_cell_id_raw(
                         x_ptr[pid] - xmin[0],
                         y_ptr[pid] - xmin[1],
@@ -823,16 +816,15 @@ cdef class ExtendedZOrderNNPS(ZOrderNNPS):
                         )
 
                     num_boxes = self._neighbor_boxes_func(c_x, c_y, c_z,
-                            current_key_to_idx, current_cids, current_hmax,
-                            num_particles, found_indices, current_hmax[cid])
+                            current_key_to_idx, current_pids, current_cids,
+                            current_hmax, num_particles, found_indices,
+                            hmax_all[cid])
 
-                    for k in range(num_boxes):
-                        found_idx = found_indices[k]
-                        current_nbr_boxes[self.mask_len*cid + n] = found_idx
-                        n += 1
-                else:
-                    current_lengths[cid] += 1
+                    for m in range(num_boxes):
+                        current_nbr_boxes[self.mask_len*cid + m] = \
+                                found_indices[m]
 
+        free(hmax_all)
         free(found_indices)
 
     @cython.cdivision(True)
